@@ -1003,6 +1003,10 @@ def mon_c14(case, intents, obs):
             break
         got = [{"src": m.get("src"), "dst": m.get("dst"), "teid": m.get("teid")} for m in o.get("markers", [])]
         want = []
+        if o.get("em_queued"):
+            out.append(("end-markers-queued-while-disabled", f"event {i}: {o['em_queued']} end markers in the plug-in's queue although end markers are "
+                        "disabled (nothing drains it: the 1025th blocks the receive loop)", i))
+            break
         if it.get("op") == "mod" and it.get("expect") == "accept" and enabled:
             rs = replies_of(o)
             if rs and rs[0][1].get("cause") == P.CAUSE_ACCEPTED:
